@@ -130,11 +130,12 @@ Theorem stmt_needs_terminator :
 Proof. exact stmt_needs_terminator_proof. Qed.
 Print Assumptions stmt_needs_terminator.
 
-(* Whole programs: every statement list of expression statements and empty statements ([prog]: each ExpressionStatement
-   ended by ';' on any line, by a line break before a token that cannot continue it, or by the end of the input) is parsed
-   to exactly that list.  Missing: an EmptyStatement directly followed by a ';' on the same line (`;;` — the code drops
-   the second one, KNOWN_FINDINGS c03-tree:empty-statement-same-line; [prog] leaves that shape out), and every other
-   statement kind (labelled statements are in the model, the rest is searched by the generator oracle). *)
+(* Whole programs: every statement list of expression statements, empty statements and labelled statements ([prog] /
+   [one]: each ExpressionStatement ended by ';' on any line, by a line break before a token that cannot continue it, or by
+   the end of the input) is parsed to exactly that list.  Missing: an EmptyStatement or LabelledStatement directly
+   followed by a ';' on the same line (`;;`, `l: x;;` — the code drops that EmptyStatement, KNOWN_FINDINGS
+   c03-tree:empty-statement-same-line; [one] leaves that shape out), and every other statement kind (searched by the
+   generator oracle). *)
 Theorem program_of_statements_partial : forall ts l, prog ts l -> parse_program ts = Ok l.
 Proof. exact program_of_statements_proof. Qed.
 Print Assumptions program_of_statements_partial.
